@@ -271,4 +271,24 @@ Section Oracle.
                                match k with KCustomAgg => aggregate_report_runs li scanned | _ => true end)
                      scanned)
     end.
+
+  (* ---- language server call sites (internal/lsp/server.go), generic client, names without
+     percent escapes: uri.ToPath is then TrimPrefix(uri, "file://") *)
+  Definition file_scheme : str := [102; 105; 108; 101; 58; 47; 47].   (* "file://" *)
+  Definition dot_rego : str := [46; 114; 101; 103; 111].              (* ".rego" *)
+  Definition uri_to_path (u : str) : str := trim_prefix u file_scheme.
+
+  (* ignoreURI: paths, err := FilterIgnoredPaths([ToPath(uri)], cfg.Ignore.Files, false, workspacePath());
+     return err != nil || len(paths) == 0 *)
+  Definition lsp_ignore_uri (root_uri : str) (ignore : list str) (u : str) : bool :=
+    negb (has_suffix u dot_rego) ||
+    match go_filter_ignored_paths [uri_to_path u] ignore (uri_to_path root_uri) with
+    | Some [] => true
+    | Some _ => false
+    | None => true
+    end.
+
+  (* getFilteredModules: FilterIgnoredPaths(keys of the module cache (URIs), ignore, false, workspaceRootURI) *)
+  Definition lsp_filtered_modules (root_uri : str) (ignore : list str) (uris : list str) : option (list str) :=
+    go_filter_ignored_paths uris ignore root_uri.
 End Oracle.
